@@ -257,7 +257,7 @@ def trigger_task(fname, key, method, argname, argty, time_of):
         obl, info = spec.verify(loops={0: fe}, specs=specs, extra_goals=extra)
         return {"obligations": obl, "info": [info]}
     build.__doc__ = f"{fname}: selection by time bucket (None = always) and call of {method} per selected hook"
-    task(qual, props=["C13"], functions=[qual] + (["Simulator._check_event_class_and_instance"] if is_market else []), replay="whole_run")(build)
+    task(qual, props=["C13"], functions=[qual] + (["Simulator._check_event_class_and_instance"] if is_market else []), replay="hooks")(build)
 
 
 for _t in TRIGGERS:
